@@ -822,10 +822,56 @@ let run_fpb toks =
     Stdlib.String.concat " | " (Stdlib.List.rev !outs)
   | _ -> failwith "bad failpath case"
 
+(* csch <event> ...  (Model.CacheGen layer B, cache on; the script the harness ran on the real store)
+   P<k>,<gen> put | T<k> update_ttl | D<k> delete | F<k>+<k> flush (keys whose current generation was
+   offloaded) | G<k> read | H<k> read held after its device read | R<k> the held read returns *)
+let run_csch toks =
+  let s = ref CacheGen.binit in
+  let ts = ref 1 and rid = ref 100 and held = ref None in
+  let step e = s := CacheGen.bstep true !s e in
+  let cur k = Sched.aget k (!s).CacheGen.b_tbl in
+  let uncache k o = match o with Some g -> step (CacheGen.BUncache (k, g)) | None -> () in
+  let last_out () = match (!s).CacheGen.b_out with
+    | ((_, k), Some (_, v)) :: _ -> string_of_n k ^ ":" ^ string_of_n v
+    | ((_, _), None) :: _ -> "nf"
+    | [] -> "none" in
+  let fresh () = incr rid; n_of_int !rid in
+  let read_now i =
+    let reads = CacheGen.will_read_device !s i in
+    step (CacheGen.BResolve (i, false)); step (CacheGen.BFill (i, not reads)); last_out () in
+  Stdlib.String.concat " " (Stdlib.List.map (fun t ->
+      let body = Stdlib.String.sub t 1 (Stdlib.String.length t - 1) in
+      match t.[0] with
+      | 'P' -> (match Stdlib.String.split_on_char ',' body with
+          | [k; g] -> let k = n_of_string k in let o = cur k in
+            incr ts; step (CacheGen.BPut (k, n_of_string g, n_of_int !ts, N0)); uncache k o; "-"
+          | _ -> failwith "bad P")
+      | 'T' -> let k = n_of_string body in let o = cur k in
+        incr ts; step (CacheGen.BTtl (k, n_of_int !ts, N0));
+        if cur k = o then "nf" else (uncache k o; "ok")
+      | 'D' -> let k = n_of_string body in let o = cur k in
+        step (CacheGen.BDel k); (match o with Some _ -> uncache k o; "ok" | None -> "nf")
+      | 'F' -> Stdlib.List.iter (fun ks -> if ks <> "" then
+                                  match cur (n_of_string ks) with Some g -> step (CacheGen.BOffload g) | None -> ())
+                 (Stdlib.String.split_on_char '+' body); "-"
+      | 'G' -> let k = n_of_string body in let i = fresh () in
+        let before = Stdlib.List.length (!s).CacheGen.b_out in
+        step (CacheGen.BStart (i, k));
+        if Stdlib.List.length (!s).CacheGen.b_out > before then last_out () else read_now i
+      | 'H' -> let k = n_of_string body in let i = fresh () in
+        step (CacheGen.BStart (i, k)); held := Some i;
+        if CacheGen.will_read_device !s i then "parked" else "not-parked"
+      | 'R' -> (match !held with
+          | Some i -> held := None;
+            (* the device read happened when it was held; staleness cannot arise: no flush runs while it is held *)
+            step (CacheGen.BResolve (i, false)); step (CacheGen.BFill (i, false)); last_out ()
+          | None -> "no-held-reader")
+      | _ -> failwith ("bad csch event " ^ t)) toks)
+
 let run_note _ = "note"
 
 let handlers : (string * (string list -> string)) list ref =
-  ref [ ("fs", run_fs); ("open", run_open); ("note", run_note); ("codec", run_codec); ("readdev", run_readdev); ("lww", run_lww); ("monitor", run_monitor); ("cache", run_cache); ("migrate", run_migrate); ("conc", run_conc); ("hist", run_hist); ("pins", run_pins); ("inflight", run_inflight); ("swp", run_swp); ("scn", run_scn); ("abuf", run_abuf); ("fp", run_fp); ("gate", run_gate); ("cgen", run_cgen); ("clk", run_clk); ("fpb", run_fpb) ]
+  ref [ ("fs", run_fs); ("open", run_open); ("note", run_note); ("codec", run_codec); ("readdev", run_readdev); ("lww", run_lww); ("monitor", run_monitor); ("cache", run_cache); ("migrate", run_migrate); ("conc", run_conc); ("hist", run_hist); ("pins", run_pins); ("inflight", run_inflight); ("swp", run_swp); ("scn", run_scn); ("abuf", run_abuf); ("fp", run_fp); ("gate", run_gate); ("cgen", run_cgen); ("clk", run_clk); ("fpb", run_fpb); ("csch", run_csch) ]
 
 
 let () =
